@@ -35,7 +35,7 @@ BYTES_SIG = "C08:bytes-undecodable-hex-collision"
 TEMPLATE_NAME_SIG = "C08:parameter-named-template"      # repaired by proposed_fixes/D56_C08_parameter_named_template.diff
 SET_ORDER_SIG = "D50:set-argument-order"                 # repaired by proposed_fixes/D50_set_argument_order.diff
 NOSELF_REUSE_SIG = "C08:noself-decorator-reuse"         # repaired by proposed_fixes/D57_C08_noself_decorator_reuse.diff
-SPEC_KINDS = ("canon", "sep", "facade", "flight")
+SPEC_KINDS = ("canon", "sep", "facade", "flight", "ambient")
 BINDS = {"b": "bind", "p": "bind_partial", "d": "bind+apply_defaults", "q": "bind_partial+apply_defaults"}
 
 TRUSTED = [
@@ -70,7 +70,14 @@ PARTIAL = (
     "inside the function body) through cache / early / soft with the default protected=True on the in-memory backend; lock=True, more than "
     "two overlapping calls, calls overlapping a recalculation of early / soft and overlap across event loops are not exercised. Sets: the "
     "permutation invariance of a set's text is proved for a top-level set (like for dicts); sets of at most 3 small elements are generated, "
-    "frozensets are not (the repaired formatter renders them like sets)."
+    "frozensets are not (the repaired formatter renders them like sets). "
+    "Context: where the line is - a user-written key_context (no rewrite) reaches a key only through fields the call does not bind ({site}, {@}): proved "
+    "and checked, also with a context value under every parameter name; a user-written key_context(rewrite=True) is the deprecated, explicit request to "
+    "override fields: modelled and compared, separation not claimed where a context name shadows a field; a key context opened by the library itself "
+    "(invalidate's rewrite context around delete_match) must never surround user code: calls are made inside the body of an enclosing function with the "
+    "same parameter names under invalidate (two forms), cache, early, soft, hit, failover, locked, circuit_breaker, rate_limit, slice_rate_limit and "
+    "disabling, and must read the key they have outside it. Not exercised as enclosing contexts: cache.transaction() and cache.invalidate_further() "
+    "(reads do not reach the backend's get there), iterator / bloom / dynamic decorators, contrib middlewares."
 )
 
 
@@ -95,7 +102,10 @@ DECORATED = ("decorator", "noself")
 
 def run_impl(case) -> dict:
     if case["via"] in DECORATED:
-        out = vtime.run(kc.run_decorated, case)
+        try:
+            out = vtime.run(kc.run_decorated, case)
+        except kc.InsideError as exc:
+            raise HarnessError(str(exc)) from exc
         if case.get("flight") and not out.get("decor_error"):
             try:
                 out["flight"] = vtime.run(kc.run_flight, case)
@@ -243,7 +253,14 @@ def evaluate(case, impl, model, stats=None) -> list[dict]:
                                   "detail": f"binding {BINDS[f]}: python {ic[f]} model {mc[f]} for call {pretty_call(c)}"})
         else:
             direct = ic.get("direct")
-            if direct is not None and direct != ic["key"]:
+            if case.get("inside"):
+                bump("calls_inside_an_enclosing_decorated_function")
+                here = ic.get("direct_here")
+                if direct is not None and (direct != ic["key"] or (here is not None and here != direct)):
+                    fails.append({"kind": "ambient", "at": [gi, ci],
+                                  "detail": f"{pretty_call(c)} made inside the body of {enclosing_text(case)} read the key {ic['key']!a} "
+                                            f"(get_cache_key there: {here!a}); the same call outside it has the key {direct!a}"})
+            elif direct is not None and direct != ic["key"]:
                 fails.append({"kind": "facade", "at": [gi, ci],
                               "detail": f"decorated call read {ic['key']!a} but get_cache_key gives {direct!a}"})
             if any(k != ic["gets"][0] for k in ic["gets"] + ic["sets"]) if ic["gets"] else False:
@@ -410,7 +427,7 @@ def restrict(case, fail) -> dict:
     """keep only the calls a failure talks about"""
     c = copy.deepcopy(case)
     at = fail.get("at")
-    if fail["kind"] in ("model", "inspect") and at:
+    if fail["kind"] in ("model", "inspect", "ambient") and at:
         g = c["groups"][at[0]]
         c["groups"] = [{"calls": [g["calls"][at[1]]]}]
     elif fail["kind"] == "canon":
@@ -485,7 +502,7 @@ def shrink(case, fail) -> dict:
         d["via"] = "direct"
         if still_fails(d, kind):
             c = d
-    for flag in ("flight", "recv", "reuse"):
+    for flag in ("flight", "recv", "reuse", "inside"):
         if c.get(flag) and not (flag == "flight" and kind in ("flight", "flightmodel")):
             d = copy.deepcopy(c)
             del d[flag]
@@ -593,6 +610,11 @@ def shrink_text(case, kind) -> dict:
     return c
 
 
+def enclosing_text(case) -> str:
+    okw = kc.outer_values(case)
+    return f"outer({', '.join(f'{n}={v!a}' for n, v in okw.items())}) [cache.{case['inside']}]"
+
+
 def pretty_call(c) -> str:
     # ascii(): look-alike strings ('caf\xe9' / 'cafe\u0301') must be told apart in a report
     a = [ascii(kc.dec(x)) for x in c["args"]] + [f"{n}={kc.dec(v)!a}" for n, v in c["kwargs"]]
@@ -610,6 +632,8 @@ def pretty_sig(case) -> str:
     how = {"noself": " through noself(cache)(ttl=..)", "decorator": " through cache(ttl=..)"}.get(case["via"], "")
     if case.get("flight") and how:
         how = how.replace("cache(", {"cache": "cache(", "early": "cache.early(", "soft": "cache.soft("}[case["flight"]])
+    if case.get("inside"):
+        how += f", called inside the body of {enclosing_text(case)}"
     if case.get("reuse"):
         how += ", after the same decorator object was applied to a function sib with the same signature"
     if case.get("recv") == "obj":
@@ -635,7 +659,9 @@ def report(chk: Check, case, fail, origin):
         what = {"canon": "a call that binds gets no key" if "gets no key" in f["detail"] else "two forms of the same call get different cache keys",
                 "sep": "two calls with different bound arguments get the same cache key",
                 "facade": "a @cache-decorated call used another key / returned another call's result",
-                "flight": "a decorated call overlapping a call with a different cache key received that call's result"}[kind]
+                "flight": "a decorated call overlapping a call with a different cache key received that call's result",
+                "ambient": "the key of a call depends on the cashews context it is made in, not only on the function, the template and "
+                           "the bound arguments"}[kind]
         chk.violation(f"{what}: {pretty_sig(small)}, template {impl.get('tmpl')!a}: {f['detail']}", replay, signature=f.get("signature"))
     else:
         what = {"model": "get_cache_key differs from the model Key.cacheKey",
@@ -650,7 +676,13 @@ def report(chk: Check, case, fail, origin):
 # generation
 
 def gen_ctx(rng, sig):
-    names = ["x", "site"] + [n for k, n, _ in sig if k in "pk"][:1]
+    named = [n for k, n, _ in sig if k in "pk"]
+    if named and rng.random() < 0.3:
+        # a context that holds a value for every parameter of the function (what a key context built from an enclosing call
+        # with the same parameter names looks like): without rewrite the call's own values win
+        vals = [[n, kc.enc(kc.gen_value(rng))] for n in named + rng.sample(["x", "site"], rng.randint(0, 2))]
+        return {"rewrite": rng.random() < 0.2, "vals": vals}
+    names = ["x", "site"] + named[:1]
     vals = [[n, kc.enc(kc.gen_value(rng))] for n in rng.sample(names, rng.randint(1, len(names)))]
     return {"rewrite": rng.random() < 0.3, "vals": vals}
 
@@ -689,6 +721,10 @@ def gen_cases_for_sig(rng, sig, names, rich: bool):
             if via == "decorator" and rng.random() < 0.5:
                 # the same calls in overlapping pairs (single flight)
                 out[-1]["flight"] = rng.choice(["cache", "early", "soft"])
+        if via == "decorator" and rng.random() < 0.6:
+            # the same calls made inside the body of an enclosing decorated function with the same parameter names
+            out.append(dict(out[-1], groups=copy.deepcopy(out[-1]["groups"]), inside=rng.choice(kc.INSIDE_KINDS)))
+            out[-1].pop("flight", None)
     # through noself(cache)(...): the template is the generated one without the parameter named `self`
     receiver = bool(sig) and sig[0][0] == "p" and sig[0][1] in kc.RECEIVERS
     if rng.random() < (0.8 if receiver else 0.12):
@@ -700,6 +736,8 @@ def gen_cases_for_sig(rng, sig, names, rich: bool):
                     out[-1]["recv"] = "obj"
                 if rng.random() < 0.3:
                     out[-1]["reuse"] = True
+                elif rng.random() < 0.4:
+                    out[-1]["inside"] = rng.choice(kc.INSIDE_KINDS)
                 if stream == "scalar" and rng.random() < 0.5:
                     out[-1]["flight"] = rng.choice(["cache", "early", "soft"])
     # malformed stream
@@ -854,6 +892,44 @@ def flight_cases(rng, rich: bool):
                     if recv:
                         c["recv"] = recv
                     out.append(c)
+    return out
+
+
+def inside_cases(rng, rich: bool):
+    """the enclosing-context stream (fixed): cached functions called inside the body of a function that has the same
+    parameter names, is decorated with each cashews decorator (invalidate first of all: it is the one that opens a key
+    context of its own) and is called with other values; and the same under a user-written key_context that holds a
+    value for every parameter (non-rewrite: the call's values win)"""
+    out = []
+    e = kc.enc
+
+    def call(args=(), **kw):
+        return {"args": [e(x) for x in args], "kwargs": [[n, e(v)] for n, v in kw.items()]}
+
+    U = ["p", "user_id", None]
+    table = [
+        ("get_profile", [U], {"items": [["L", "profile:"], ["F", "user_id"]]}, "decorator",
+         [{"calls": [call(["u1"]), call(user_id="u1")]}, {"calls": [call(["u2"]), call(user_id="u2")]}]),
+        ("f", [["p", "a", None], ["p", "b", e(5)]], {"auto": []}, "decorator",
+         [{"calls": [call([1]), call(a=1), call([1, 5])]}, {"calls": [call([2])]}, {"calls": [call([1], b=6)]}]),
+        ("K.get", [["p", "self", None], ["p", "path", None]], {"auto": ["self"]}, "noself",
+         [{"calls": [call(["eu", "/u"]), call(["eu"], path="/u")]}, {"calls": [call(["eu", "/v"])]}]),
+        ("K.get", [["p", "self", None], ["p", "path", None]], {"auto": []}, "decorator",
+         [{"calls": [call(["eu", "/u"]), call(["eu"], path="/u")]}, {"calls": [call(["us", "/u"])]}]),
+        ("f", [["p", "a", None], ["s", "args", None], ["k", "c", e("d")], ["w", "kwargs", None]], {"auto": []}, "decorator",
+         [{"calls": [call(["v", 1], x="q"), call(["v", 1], c="d", x="q")]}, {"calls": [call(["v", 1], x="r")]}, {"calls": [call(["w"])]}]),
+        ("f", [["w", "kwargs", None]], {"auto": []}, "decorator", [{"calls": [call(x=1, y=2), call(y=2, x=1)]}, {"calls": [call(x=1)]}, {"calls": [call()]}]),
+    ]
+    for name, sig, tmpl, via, groups in table:
+        names = {"module": "m", "name": name.split(".")[-1], "qualname": name}
+        base = {"names": names, "sig": sig, "tmpl": tmpl, "ctx": None, "via": via, "prefix": "", "groups": groups, "stream": "inside"}
+        for kind in kc.INSIDE_KINDS:
+            out.append(dict(copy.deepcopy(base), inside=kind))
+        named = [n for k, n, _ in sig if k in "pk"]
+        for rewrite_free_vals in ([[n, e(kc.OUTER_PREFIX + n)] for n in named], [[n, e(kc.OUTER_PREFIX + n)] for n in named + ["x", "site"]]):
+            if rewrite_free_vals:
+                out.append(dict(copy.deepcopy(base), ctx={"rewrite": False, "vals": rewrite_free_vals}))
+                out.append(dict(copy.deepcopy(base), ctx={"rewrite": False, "vals": rewrite_free_vals}, inside="invalidate"))
     return out
 
 
@@ -1022,6 +1098,9 @@ def run(chk: Check) -> int:
     for c in flight_cases(rng, chk.thorough):
         cases.append(c)
         origin.append("flight")
+    for c in inside_cases(rng, chk.thorough):
+        cases.append(c)
+        origin.append("inside")
     sig_count = 0
     for shape, rep in chosen:
         first_self = rng.choice(["self", "self", "self", "cls"]) if shape[0] > 0 and rng.random() < 0.2 else False
@@ -1050,7 +1129,8 @@ def run(chk: Check) -> int:
             interesting = {k for k in local if k in (
                 "formatter_slow_path", "keyword_only_call_defaults_applied", "raw_kwargs_fallback",
                 "separation_pairs_checked", "call_form_pairs_compared", "unbindable_positional_call_typeerror",
-                "decorated_cache_hits", "separation_pairs_lookalike_text", "overlapping_call_pairs")}
+                "decorated_cache_hits", "separation_pairs_lookalike_text", "overlapping_call_pairs",
+                "calls_inside_an_enclosing_decorated_function")}
             if interesting:
                 distinct.add(json.dumps([case["sig"], case["tmpl"], case["ctx"], case["via"], case["groups"]], sort_keys=True))
             hist["via"][case["via"]] = hist["via"].get(case["via"], 0) + 1
@@ -1119,7 +1199,10 @@ def run(chk: Check) -> int:
                 "a receiver, most of those are also run through noself, some with the decorator object first applied to a sibling function); "
                 "a fixed overlap stream: methods on two receivers and plain functions through cache / early / soft, plain and through noself, "
                 "generated / explicit templates, with / without prefix - every two groups and two forms of one group are run as a pair of "
-                "overlapping calls (the first parked inside the function body), and so are half of the decorated scalar cases of the generated stream. "
+                "overlapping calls (the first parked inside the function body), and so are half of the decorated scalar cases of the generated stream; "
+                "a fixed enclosing-context stream: cached functions (explicit / generated / noself templates, *args, **kwargs) called inside the body of a "
+                "function with the same parameter names decorated with each of " + str(len(kc.INSIDE_KINDS)) + " cashews decorators / context managers and called with other values, "
+                "and under user key contexts holding a value for every parameter; 60% of the generated decorated cases are run a second time inside such a body. "
                 "A case is non-trivial iff it compared at least two call forms of one "
                 "bound tuple, checked a separation pair inside the stated domain, took the keyword-only path with defaults applied, the raw-kwargs "
                 "fallback, the formatter's slow path, a TypeError from bind, a decorated cache hit, or ran a pair of overlapping calls; distinct = distinct case contents",
